@@ -160,11 +160,11 @@ func (h *hist) mkStore(alt bool) (store, string) {
 	case cfg.Flavour == "cache-cluster":
 		return &cacheStore{c: cache.New(conf(w.nodes[1:]), barrier, cstat, errNF, opts...), db: h.db, ctx: ctx}, "cache.New(two-node conf, shared barrier)"
 	case cfg.Flavour == "sqlc-node" && alt:
-		return &sqlStore{cc: sqlc.NewConn(nil, conf(w.nodes[:1]), opts...), db: h.db, ctx: ctx}, "sqlc.NewConn(one-node conf)"
+		return &sqlStore{cc: sqlc.NewConn(passDB, conf(w.nodes[:1]), opts...), db: h.db, ctx: ctx}, "sqlc.NewConn(one-node conf)"
 	case cfg.Flavour == "sqlc-node":
-		return &sqlStore{cc: sqlc.NewNodeConn(nil, w.nodes[0].rds, opts...), db: h.db, ctx: ctx}, "sqlc.NewNodeConn(rds)"
+		return &sqlStore{cc: sqlc.NewNodeConn(passDB, w.nodes[0].rds, opts...), db: h.db, ctx: ctx}, "sqlc.NewNodeConn(rds)"
 	case cfg.Flavour == "sqlc-cluster":
-		return &sqlStore{cc: sqlc.NewConn(nil, conf(w.nodes[1:]), opts...), db: h.db, ctx: ctx}, "sqlc.NewConn(two-node conf)"
+		return &sqlStore{cc: sqlc.NewConn(passDB, conf(w.nodes[1:]), opts...), db: h.db, ctx: ctx}, "sqlc.NewConn(two-node conf)"
 	}
 	panic("flavour " + cfg.Flavour)
 }
